@@ -16,6 +16,7 @@ import (
 	"io"
 	"math/big"
 	"os"
+	"path/filepath"
 	"regexp"
 	"sort"
 	"strconv"
@@ -25,6 +26,7 @@ import (
 
 	"rare/cmd"
 	"rare/pkg/extractor"
+	"rare/pkg/extractor/batchers"
 	"rare/pkg/matchers"
 	"rare/pkg/matchers/dissect"
 	"rare/pkg/matchers/fastregex"
@@ -47,6 +49,19 @@ type c16In struct {
 	Pattern string    `json:"pattern,omitempty"`  // for regex / dissect: the pattern (hex)
 	Data    []string  `json:"data_hex,omitempty"` // via = cli: the -d arguments
 	Keys    []c16KV   `json:"keys,omitempty"`     // via = cli: the -k key=value arguments (distinct keys, sorted)
+	// via = pipeline: the whole run this line was observed in (the case reports the line `line_hex`)
+	Scenario *c16Scenario `json:"scenario,omitempty"`
+}
+
+// several sources whose line numbers all start at 1, pushed through ONE extractor (the expression
+// context is reused per worker across matches and sources)
+type c16Scenario struct {
+	Sources [][]string `json:"sources_hex"` // per source: its lines
+	Batch   int        `json:"batch_size"`  // lines per input batch
+	Order   []int      `json:"batch_order"` // scripted: which source the k-th batch comes from (per-source order kept)
+	Files   bool       `json:"files"`       // true: temp files under $VERIF_WORK read by batchers.OpenFilesToChan
+	Workers int        `json:"workers"`     // every view is run with Workers: 1 and with this many (2..4)
+	Reps    int        `json:"repetitions"`
 }
 type c16KV struct {
 	Key string `json:"key_hex"`
@@ -77,7 +92,7 @@ func unhexs(s string) string {
 
 func factoryOf(in c16In) (matchers.Factory, error) {
 	switch in.Via {
-	case "regex":
+	case "regex", "pipeline":
 		re, err := fastregex.CompileEx(unhexs(in.Pattern), false)
 		if err != nil {
 			return nil, err
@@ -143,6 +158,130 @@ loop:
 	}
 	sort.Strings(out)
 	return out, note
+}
+
+// ---- whole pipeline: 2..4 sources -> input batches -> extractor.New (one matcher, one expression) -> matches
+var scenarioCache = map[string][3]map[string][]string{}
+var scenarioNotes = map[string]string{}
+var scenarioSeq int
+
+func scenarioBatches(sc *c16Scenario, dir string, concurrency int) (<-chan extractor.InputBatch, error) {
+	if sc.Files {
+		names := make(chan string, len(sc.Sources))
+		for i, src := range sc.Sources {
+			fn := filepath.Join(dir, fmt.Sprintf("src%d.log", i))
+			var buf bytes.Buffer
+			for _, l := range src {
+				buf.WriteString(unhexs(l))
+				buf.WriteByte('\n')
+			}
+			if err := os.WriteFile(fn, buf.Bytes(), 0o644); err != nil {
+				return nil, err
+			}
+			names <- fn
+		}
+		close(names)
+		return batchers.OpenFilesToChan(names, false, concurrency, sc.Batch, 1).BatchChan(), nil
+	}
+	ch := make(chan extractor.InputBatch, len(sc.Order)+1)
+	pos := make([]int, len(sc.Sources))
+	for _, si := range sc.Order {
+		if si < 0 || si >= len(sc.Sources) || pos[si] >= len(sc.Sources[si]) {
+			continue
+		}
+		hi := pos[si] + sc.Batch
+		if hi > len(sc.Sources[si]) {
+			hi = len(sc.Sources[si])
+		}
+		var b []extractor.BString
+		for _, l := range sc.Sources[si][pos[si]:hi] {
+			b = append(b, extractor.BString(unhexs(l)))
+		}
+		ch <- extractor.InputBatch{Batch: b, Source: fmt.Sprintf("source-%d", si), BatchStart: uint64(pos[si] + 1)}
+		pos[si] = hi
+	}
+	close(ch)
+	return ch, nil
+}
+
+// runs the scenario for the three views with Workers 1 and sc.Workers; result: per view, line -> distinct texts
+func runScenario(in c16In) ([3]map[string][]string, string) {
+	sc := in.Scenario
+	kb, _ := json.Marshal(struct {
+		P string
+		S *c16Scenario
+	}{in.Pattern, sc})
+	key := string(kb)
+	if r, ok := scenarioCache[key]; ok {
+		return r, scenarioNotes[key]
+	}
+	var res [3]map[string][]string
+	var notes []string
+	dir := ""
+	if sc.Files {
+		base := os.Getenv("VERIF_WORK")
+		if base == "" {
+			base = os.TempDir()
+		}
+		scenarioSeq++
+		dir = filepath.Join(base, fmt.Sprintf("c16-pipeline-%d-%d", os.Getpid(), scenarioSeq))
+		os.MkdirAll(dir, 0o755)
+		defer os.RemoveAll(dir)
+	}
+	re, err := fastregex.CompileEx(unhexs(in.Pattern), false)
+	if err != nil {
+		return res, "matcher: " + err.Error()
+	}
+	reps := sc.Reps
+	if reps < 1 {
+		reps = 1
+	}
+	for vi, expr := range []string{"{.}", "{#}", "{.#}"} {
+		seen := map[string]map[string]bool{}
+		for _, workers := range []int{1, sc.Workers} {
+			for rep := 0; rep < reps; rep++ {
+				ch, err := scenarioBatches(sc, dir, 1+rep%2)
+				if err != nil {
+					notes = append(notes, err.Error())
+					continue
+				}
+				ex, err := extractor.New(ch, &extractor.Config{Matcher: matchers.ToFactory(re), Extract: expr, Workers: workers})
+				if err != nil {
+					notes = append(notes, err.Error())
+					continue
+				}
+				timeout := time.After(20 * time.Second)
+			loop:
+				for {
+					select {
+					case ms, ok := <-ex.ReadChan():
+						if !ok {
+							break loop
+						}
+						for _, m := range ms {
+							if seen[m.Line] == nil {
+								seen[m.Line] = map[string]bool{}
+							}
+							seen[m.Line][m.Extracted] = true
+						}
+					case <-timeout:
+						notes = append(notes, "timeout")
+						break loop
+					}
+				}
+			}
+		}
+		res[vi] = map[string][]string{}
+		for l, ts := range seen {
+			for t := range ts {
+				res[vi][l] = append(res[vi][l], t)
+			}
+			sort.Strings(res[vi][l])
+		}
+	}
+	scenarioCache[key] = res
+	scenarioNotes[key] = strings.Join(notes, "; ")
+	return res, scenarioNotes[key]
 }
 
 // ---- `rare expression -r -n -d ... -k k=v '{.}'` run in-process (cmd.GetSupportedCommands), stdout captured
@@ -372,11 +511,23 @@ func c16Run(in c16In) (out c16Out) {
 			cliTexts = make([][]string, 3)
 		}
 	}
+	var pipeTexts [3]map[string][]string
+	if in.Via == "pipeline" && in.Scenario != nil {
+		var note string
+		pipeTexts, note = runScenario(in)
+		if note != "" {
+			notes = append(notes, note)
+		}
+	}
 	for vi, v := range views {
 		var texts []string
 		var note string
 		if in.Via == "cli" {
 			texts = cliTexts[vi]
+		} else if in.Via == "pipeline" {
+			if pipeTexts[vi] != nil {
+				texts = pipeTexts[vi][unhexs(in.Line)]
+			}
 		} else {
 			texts, note = runView(in, v.expr)
 		}
@@ -527,6 +678,30 @@ func classify(in c16In) ([]string, bool) {
 	if in.Via == "cli" {
 		tagset[fmt.Sprintf("cli:keys=%d", len(in.Keys))] = true
 	}
+	if in.Via == "pipeline" && in.Scenario != nil {
+		sc := in.Scenario
+		tagset[fmt.Sprintf("pipeline:sources=%d", len(sc.Sources))] = true
+		if sc.Files {
+			tagset["pipeline:files(OpenFilesToChan)"] = true
+		} else {
+			tagset["pipeline:scripted-batches"] = true
+		}
+		// the line is rendered right after a match with the same line number from another source
+		if pipelineCollides(in) {
+			tagset["pipeline:same-line-number-back-to-back"] = true
+		}
+		occ := 0
+		for _, src := range sc.Sources {
+			for _, l := range src {
+				if l == in.Line {
+					occ++
+				}
+			}
+		}
+		if occ >= 2 {
+			tagset["pipeline:line-in-several-places"] = true
+		}
+	}
 	unmatched := false
 	for i := 0; i+1 < len(in.Indices); i += 2 {
 		if in.Indices[i] < 0 {
@@ -555,7 +730,8 @@ func classify(in c16In) ([]string, bool) {
 	var tags []string
 	for t := range tagset {
 		tags = append(tags, t)
-		if strings.HasPrefix(t, "text:") || strings.HasPrefix(t, "name:") || strings.HasPrefix(t, "group:") || t == "kf:C16-member-order" {
+		if strings.HasPrefix(t, "text:") || strings.HasPrefix(t, "name:") || strings.HasPrefix(t, "group:") || t == "kf:C16-member-order" ||
+			t == "pipeline:same-line-number-back-to-back" || t == "pipeline:line-in-several-places" {
 			nontrivial = true
 		}
 	}
@@ -839,6 +1015,175 @@ func genCli(r *Rng) c16In {
 	return in
 }
 
+// in the scripted batch order with one worker: is this line matched directly after a match that has
+// the same line number but another source?
+func pipelineCollides(in c16In) bool {
+	sc := in.Scenario
+	if sc.Files {
+		// files are read one after the other (or concurrently): decided on the sequential order
+		prevNum, prevSrc := -1, -1
+		re, err := regexp.Compile(unhexs(in.Pattern))
+		if err != nil {
+			return false
+		}
+		for si, src := range sc.Sources {
+			for li, l := range src {
+				if !re.MatchString(unhexs(l)) {
+					continue
+				}
+				if l == in.Line && prevNum == li && prevSrc != si {
+					return true
+				}
+				prevNum, prevSrc = li, si
+			}
+		}
+		return false
+	}
+	re, err := regexp.Compile(unhexs(in.Pattern))
+	if err != nil {
+		return false
+	}
+	pos := make([]int, len(sc.Sources))
+	prevNum, prevSrc := -1, -1
+	for _, si := range sc.Order {
+		if si < 0 || si >= len(sc.Sources) {
+			continue
+		}
+		hi := pos[si] + sc.Batch
+		if hi > len(sc.Sources[si]) {
+			hi = len(sc.Sources[si])
+		}
+		for li := pos[si]; li < hi; li++ {
+			l := sc.Sources[si][li]
+			if !re.MatchString(unhexs(l)) {
+				continue
+			}
+			if l == in.Line && prevNum == li && prevSrc != si {
+				return true
+			}
+			prevNum, prevSrc = li, si
+		}
+		pos[si] = hi
+	}
+	return false
+}
+
+// one pipeline scenario -> one case per distinct matching line.
+// shape 0: every source has one line; 1: batches of one line, sources interleaved; 2: only the first
+// line of every source matches; 3: free.
+func genPipeline(r *Rng, shape int) []c16In {
+	k := r.Range(1, 3)
+	var pat strings.Builder
+	pat.WriteString(`(?s)^`)
+	named := 0
+	used := map[string]bool{}
+	for i := 0; i < k; i++ {
+		if i > 0 {
+			pat.WriteString(`\x1e`)
+		}
+		name := ""
+		if r.Chance(1, 2) && !(cleanMode && named > 0) {
+			name = Pick(r, wordNames)
+			if used[name] {
+				name = ""
+			}
+		}
+		if name != "" {
+			used[name] = true
+			named++
+			pat.WriteString(`(?P<` + name + `>[^\x1e]*)`)
+		} else {
+			pat.WriteString(`([^\x1e]*)`)
+		}
+	}
+	pat.WriteString(`$`)
+	files := r.Chance(1, 3)
+	fix := func(t string) string {
+		t = strings.ReplaceAll(t, "\x1e", "")
+		if files {
+			t = strings.TrimRight(strings.ReplaceAll(t, "\n", " "), "\r")
+		}
+		return t
+	}
+	mkLine := func() string {
+		parts := make([]string, k)
+		for i := range parts {
+			parts[i] = fix(genText(r))
+		}
+		l := strings.Join(parts, "\x1e")
+		if files {
+			l = strings.TrimRight(l, "\r")
+		}
+		return l
+	}
+	nomatch := strings.Repeat("\x1e", k) + "no match"
+	nsrc := r.Range(2, 4)
+	sc := &c16Scenario{Files: files, Workers: r.Range(2, 4), Reps: 2, Batch: r.Range(1, 3)}
+	var pool []string
+	for si := 0; si < nsrc; si++ {
+		nl := r.Range(1, 4)
+		if shape == 0 {
+			nl = 1
+		}
+		var src []string
+		for li := 0; li < nl; li++ {
+			var l string
+			switch {
+			case shape == 2 && li > 0:
+				l = nomatch
+			case shape == 3 && r.Chance(1, 4):
+				l = nomatch
+			case len(pool) > 0 && r.Chance(1, 4):
+				l = Pick(r, pool) // the same line again, somewhere else
+			default:
+				l = mkLine()
+				pool = append(pool, l)
+			}
+			src = append(src, hex.EncodeToString([]byte(l)))
+		}
+		sc.Sources = append(sc.Sources, src)
+	}
+	if shape == 1 {
+		sc.Batch = 1
+	}
+	// batch order: a random interleaving that keeps every source's own order
+	left := make([]int, nsrc)
+	total := 0
+	for si, src := range sc.Sources {
+		left[si] = (len(src) + sc.Batch - 1) / sc.Batch
+		total += left[si]
+	}
+	rr := 0
+	for len(sc.Order) < total {
+		si := r.Intn(nsrc)
+		if shape == 1 { // round robin: line i of every source back to back
+			si = rr % nsrc
+			rr++
+		}
+		if left[si] > 0 {
+			sc.Order = append(sc.Order, si)
+			left[si]--
+		}
+	}
+	var out []c16In
+	seen := map[string]bool{}
+	for _, src := range sc.Sources {
+		for _, l := range src {
+			if seen[l] {
+				continue
+			}
+			seen[l] = true
+			in, ok := fromMatcher("pipeline", pat.String(), []byte(unhexs(l)))
+			if !ok {
+				continue
+			}
+			in.Scenario = sc
+			out = append(out, in)
+		}
+	}
+	return out
+}
+
 func c16Gen(r *Rng, n int, tier string) []Case {
 	var cases []Case
 	// exhaustive: every byte value alone in a named group and embedded in a numbered group
@@ -871,12 +1216,31 @@ func c16Gen(r *Rng, n int, tier string) []Case {
 		}
 		cases = append(cases, c16Case(in))
 	}
+	// pipeline scenarios of every shape, outside the domains of the known findings
+	cleanMode = true
+	for i := 0; i < 8; i++ {
+		for _, in := range genPipeline(r, i%4) {
+			if !inKnownDomain(in) {
+				cases = append(cases, c16Case(in))
+			}
+		}
+	}
+	cleanMode = false
 	base := len(cases)
 	for len(cases) < base+n {
 		var in c16In
 		ok := true
 		cleanMode = r.Chance(1, 2)
 		noCtrl = r.Chance(1, 2)
+		if r.Chance(1, 25) { // about a sixth of the cases: every distinct matching line of a pipeline scenario
+			cleanMode = r.Chance(3, 4)
+			for _, pin := range genPipeline(r, r.Intn(4)) {
+				if !(cleanMode && inKnownDomain(pin)) {
+					cases = append(cases, c16Case(pin))
+				}
+			}
+			continue
+		}
 		switch x := r.Intn(12); {
 		case x < 6:
 			in = genScripted(r)
@@ -903,10 +1267,11 @@ func main() {
 		Name:   "C16",
 		Header: "From Coq Require Import List NArith ZArith String.\nFrom RareV Require Import Corr.C16Case.\nImport ListNotations.\nOpen Scope Z_scope. Open Scope string_scope.\n",
 		Rule: "fixed part: every byte value 0..255 alone in a named group and embedded in a numbered group; every numeric shape (007, 1., .5, -1, 1e5, 00.1, -0, +1, ...) and boolean shape (case variants, U+017F long s, look-alikes) alone under 0/1/2 names; 0..4 names over the same groups. " +
+			"pipeline part (8 fixed-shape scenarios, then about 1/6 of the seeded cases): 2..4 sources whose line numbers all start at 1 (one line each / one-line batches interleaved round robin / only first lines match / free; lines repeated across sources) are pushed through ONE extractor.New with a real regexp matcher and a JSON view as the expression, with Workers 1 and 2..4, twice each, either as scripted InputBatches in a generated interleaving or as temp files under $VERIF_WORK read by batchers.OpenFilesToChan; every emitted match is grouped by its line and each distinct matching line is one case: all texts ever rendered for that line (whatever was rendered before it) must be the one text of its own captures. " +
 			"seeded part: 1/6 `rare expression -r -n -d ... -k k=v` run in-process through cmd.GetSupportedCommands (0..4 data, 0..4 keys, the -k order rotated between evaluations; no NUL, no comma, no '=' in keys, valid UTF-8 only, no surrounding white space: what the flag library passes on unchanged); of the rest 60% scripted matcher (0..5 groups with nested/overlapping/empty/unmatched spans, 0..4 names incl. digits-only, duplicate group, out-of-range index, names needing escapes), 20% real regexp ((?P<name>...) fields separated by 0x1e, optional groups), 20% real dissect (arbitrary token names). " +
 			"group texts: numeric shapes, boolean shapes, log-like words, raw random bytes, digit noise, words mixed with quotes/backslashes/control characters/non-ASCII/invalid UTF-8. " +
 			"every view ({.}, {#}, {.#}) of every case is evaluated 50 times through extractor.New on one batch; the observable is the set of distinct texts per view plus encoding/json's verdict. " +
-			"distinct = distinct (names, line, indices, matcher); non-trivial = at least one of: a text with control/quote/backslash/DEL/non-ASCII/invalid UTF-8, a numeric or boolean (look-alike) text, an unmatched group, a name that needs escaping / is digits-only / points out of range, two or more names.",
+			"distinct = distinct (names, line, indices, matcher); non-trivial = at least one of: a text with control/quote/backslash/DEL/non-ASCII/invalid UTF-8, a numeric or boolean (look-alike) text, an unmatched group, a name that needs escaping / is digits-only / points out of range, two or more names, a pipeline line rendered right after a match with the same line number from another source, a line occurring in several places of a pipeline run.",
 		Gen: c16Gen,
 		Replay: func(d json.RawMessage) (Case, error) {
 			var doc struct {
